@@ -388,6 +388,10 @@ func (c *HostClient) Do(ctx context.Context, req *protocol.Request, resp *protoc
 		isDefaultRetryFunc = false
 	}
 
+	// A body stream is used up (and forgotten by the request) by the first attempt: such a
+	// request cannot be sent again, whatever the request looks like afterwards.
+	streamedBody := req.IsBodyStream()
+
 	atomic.AddInt32(&c.pendingRequests, 1)
 	req.Options().StartRequest()
 	for {
@@ -417,7 +421,7 @@ func (c *HostClient) Do(ctx context.Context, req *protocol.Request, resp *protoc
 		// keep-alive connection on timeout.
 		//
 		// Apache and nginx usually do this.
-		if canIdempotentRetry && client.DefaultRetryIf(req, resp, err) && errors.Is(err, errs.ErrBadPoolConn) {
+		if canIdempotentRetry && !streamedBody && client.DefaultRetryIf(req, resp, err) && errors.Is(err, errs.ErrBadPoolConn) {
 			connAttempts++
 			continue
 		}
